@@ -18,6 +18,7 @@ UNITS = {
     'repair': {'template': 'units/repair/unit.rs', 'serves': ['C14', 'C15', 'C10'], 'min_verified': 16},
     'producer': {'template': 'units/producer/unit.rs', 'serves': ['C10'], 'min_verified': 10},
     'deshred': {'template': 'units/deshred/unit.rs', 'serves': ['C11', 'C13'], 'min_verified': 12},
+    'ingest': {'template': 'units/ingest/unit.rs', 'serves': ['C12', 'C13', 'C16'], 'min_verified': 10},
     'slot_state': {'template': 'units/slot_state/unit.rs', 'serves': ['C03', 'C04', 'C06'], 'min_verified': 93},
 }
 
